@@ -57,6 +57,13 @@ KT_OAEP = 'http://www.w3.org/2001/04/xmlenc#rsa-oaep-mgf1p'
 SESSION_KEYS = {'des-192': 24, 'aes-128': 16, 'aes-192': 24, 'aes-256': 32}
 
 
+TRANSFORMS = ['base64', 'c14n', 'c14n-with-comments', 'c14n11', 'c14n11-with-comments', 'exc-c14n',
+              'exc-c14n-with-comments', 'enveloped-signature', 'xpath', 'xpath2', 'xpointer', 'xslt', 'aes128-cbc',
+              'aes192-cbc', 'aes256-cbc', 'tripledes-cbc', 'hmac-sha1', 'hmac-sha224', 'hmac-sha256', 'hmac-sha384',
+              'hmac-sha512', 'rsa-sha1', 'rsa-sha224', 'rsa-sha256', 'rsa-sha384', 'rsa-sha512', 'rsa-1_5',
+              'rsa-oaep-mgf1p', 'sha1', 'sha224', 'sha256', 'sha384', 'sha512']
+
+
 class Fail(Exception):
     pass
 
@@ -730,6 +737,8 @@ def run(argv):
             raise Fail('Error: no command')
         if argv[0] in ('--version', 'version'):
             return 0, 'xmlsec1 1.2.28 (openssl)\n', '', info
+        if argv[0] in ('--list-transforms', 'list-transforms'):
+            return 0, 'Registered transforms klasses:\n' + ','.join('"%s"' % t for t in TRANSFORMS) + '\n', '', info
         if argv[0] not in CMDS:
             raise Fail('Error: unknown command "%s"' % argv[0])
         cmd, o = parse_args(argv)
